@@ -114,6 +114,8 @@ class C08(ProgProp):
                 f["callbacks"] = {"#%d" % rng.randint(1, 8): True}
             if rng.random() < 0.2:
                 spec["max_stack"] = rng.randint(3, 40)
+            if rng.random() < 0.15:
+                spec["options"] = {o: not real.DEFAULT_OPTIONS[o] for o in real.BOOL_OPTIONS if rng.random() < 0.3}
             hist.append(spec)
         return {"history": hist, "canary": _canary(rng), "persist": [rng.random() < 0.5 for _ in range(n)]}
 
